@@ -1,14 +1,20 @@
 #!/bin/bash
 # usage: try_patch.sh <patch.diff> <tier> <ID> [<ID> ...]
-# Applies the patch to /repo's working tree, runs the named checks, and ALWAYS restores /repo.
-# Prints one line per check: "<ID> <tier> exit=<code>" followed by the first VIOLATION lines.
-patch=$1; tier=$2; shift 2
-cd /repo || exit 2
-if [ -n "$(git status --porcelain -- src Cargo.toml)" ]; then echo "/repo is dirty; refusing"; exit 2; fi
-trap 'git -C /repo checkout -- . ; git -C /repo clean -fdq -- src tests 2>/dev/null' EXIT
-git apply "$patch" || { echo "patch does not apply"; exit 2; }
+# Runs the named checks against a SCRATCH worktree of /repo with the patch applied; /repo itself and
+# /verif/evidence are never touched.  The scratch harness copy lives in /tmp/vt (its repo_link points
+# at the scratch worktree /tmp/wt/try); both are disposable.
+patch=$(readlink -f "$1"); tier=$2; shift 2
+wt=/tmp/wt/try; vt=/tmp/vt
+head=$(git -C /repo rev-parse HEAD)
+if [ ! -d "$wt" ]; then git -C /repo worktree add -q --detach "$wt" "$head" || exit 2; fi
+git -C "$wt" checkout -q --detach "$head" 2>/dev/null; git -C "$wt" checkout -- . ; git -C "$wt" clean -fdq -- src tests 2>/dev/null
+mkdir -p "$vt"
+rsync -a --delete --exclude target --exclude evidence --exclude replays /verif/mc /verif/check /verif/known_findings.json "$vt/" || exit 2
+ln -sfn "$wt" "$vt/repo_link"
+git -C "$wt" apply "$patch" || { echo "patch does not apply"; exit 2; }
 for id in "$@"; do
-  out=$(/verif/check "$id" "$tier" 2>&1); code=$?
+  out=$("$vt/check" "$id" "$tier" 2>&1); code=$?
   echo "== $id $tier exit=$code"
-  echo "$out" | grep -E "^(VIOLATION|  \[|MACHINERY|BUILD FAILED|check )" | head -6 | cut -c1-400
+  echo "$out" | grep -E "^(VIOLATION|  \[|MACHINERY|BUILD FAILED|check |KNOWN)" | head -6 | cut -c1-400
 done
+git -C "$wt" checkout -- . ; git -C "$wt" clean -fdq -- src tests 2>/dev/null
